@@ -54,6 +54,7 @@ func init() {
 					"internal/encoding/text.(*Decoder).Read": "token was already obtained by Peek; a failing Read does not advance, so the next Read reports the same error",
 				}, 40)
 			c.ruleScanner("R-SCAN-TEXT-NUMBER-BOUNDS", scannerSpec{key: "internal/encoding/text.parseNumber", what: "text-format number", boundsOnly: true})
+			c.ruleScanner("R-SCAN-TEXT-NUMBER-BOUNDS", scannerSpec{key: "internal/encoding/text.parseIdent", what: "text-format identifier", boundsOnly: true})
 			c.ruleSetInts()
 			c.ruleJSONFollow("R-JSON-FOLLOW")
 		},
